@@ -2,7 +2,7 @@
 # Confirm a seeded change in a scratch worktree (builds, existing tests pass, demo fails with / passes without),
 # then run the corresponding check against that tree.  usage: seed_eval.py <mut_dir> <k> [--confirm-tree /tmp/confirm] [--skip-confirm]
 import sys, os, json, subprocess, shutil, time, argparse
-ap = argparse.ArgumentParser(); ap.add_argument('mutdir'); ap.add_argument('k'); ap.add_argument('--tree', default='/tmp/confirm'); ap.add_argument('--skip-confirm', action='store_true'); ap.add_argument('--tier', default='quick')
+ap = argparse.ArgumentParser(); ap.add_argument('mutdir'); ap.add_argument('k'); ap.add_argument('--tree', default='/tmp/confirm'); ap.add_argument('--skip-confirm', action='store_true'); ap.add_argument('--tier', default='quick'); ap.add_argument('--as', dest='as_k', default=None); ap.add_argument('--check-only', action='store_true')
 a = ap.parse_args()
 src = os.path.join(a.mutdir, 'out', a.k); meta = json.load(open(os.path.join(src, 'meta.json'))); pid = meta['property']
 T = a.tree; B = T + '/_b'
@@ -19,7 +19,7 @@ try:
     if not a.skip_confirm:
         if not xtp_only:
             rc, out = sh('ninja -C %s -j10 2>&1 | tail -3' % B, timeout=3600); log['build_ok'] = 'FAILED' not in out and 'error' not in out.lower()
-            rc, out = sh('ctest --test-dir %s -j8 --timeout 900 2>&1 | tail -4' % B, timeout=3600); log['tests'] = out.strip().split('\n')[-3:] ; log['tests_pass'] = '100% tests passed' in out
+            rc, out = sh('ctest --test-dir %s -j8 --timeout 900 -E "^memory_test_" 2>&1 | tail -4' % B, timeout=3600); log['tests'] = out.strip().split('\n')[-3:] ; log['tests_pass'] = '100% tests passed' in out and 'out of 134' in out
         else:
             log['build_ok'] = 'xtp not built; compile checked by demo'; log['tests_pass'] = True; log['tests'] = 'xtp is not part of the built suite'
         rc, out = sh('bash %s/run_demo.sh %s %s' % (src, T, B), timeout=900); log['demo_with_change_rc'] = rc; log['demo_with_change_tail'] = out[-400:]
@@ -36,7 +36,7 @@ if not a.skip_confirm:
     rc, out = sh('bash %s/run_demo.sh %s %s' % (src, T, B), timeout=900); log['demo_pristine_rc'] = rc
     log['confirmed'] = bool(log.get('tests_pass')) and log.get('demo_with_change_rc', 0) != 0 and rc == 0
 print(json.dumps(log, indent=1))
-dst = '/verif/seeded/%s-%s' % (pid, a.k)
+dst = '/verif/seeded/%s-%s' % (pid, a.as_k or a.k)
 if a.skip_confirm or log.get('confirmed'):
     os.makedirs(dst, exist_ok=True)
     for f in ('patch.diff', 'demo.cc', 'run_demo.sh'): shutil.copy(os.path.join(src, f), dst)
